@@ -35,6 +35,7 @@ type Scenario struct {
 
 	// ssim only
 	SClients []SClient `json:"sclients,omitempty"`
+	Phase2   []SClient `json:"phase2,omitempty"` // clients started after phase 1 ended (or was killed) on a reopened backend
 	Keys     []string  `json:"keys,omitempty"` // key table (base64 in JSON would be nicer; Go strings may hold any bytes, JSON-escaped)
 }
 
